@@ -893,7 +893,18 @@ type gfOpaqueResolver struct{ *protoregistry.Types }
 
 func engineGoFun(c config, o *out) {
 	coq := len(c.extra) > 0 && c.extra[0] == "coq"
+	// extra argument "runtime" / "timepb": only that file (C15 is about runtime.go, C17 about timepb/cmp.go); none: both
+	doRT, doTP := true, true
+	if len(c.extra) > 0 && c.extra[0] == "runtime" {
+		doTP = false
+	}
+	if len(c.extra) > 0 && c.extra[0] == "timepb" {
+		doRT = false
+	}
 	for _, rel := range gfFiles {
+		if (rel == gfRT && !doRT) || (rel == gfTP && !doTP) {
+			continue
+		}
 		f, err := gfLoad(rel)
 		if err != nil {
 			o.kase("GOFUN", []string{rel, "decls"}, "unreadable:"+strings.NewReplacer("\t", " ", "\n", " ").Replace(err.Error()))
@@ -935,6 +946,15 @@ func engineGoFun(c config, o *out) {
 
 	// ---- differential runs: the interpreter on the translated functions against the running code, on the inputs of rt / time
 	g := &gfRunner{o: o}
+	if doRT {
+		gfRunRuntime(g, c)
+	}
+	if doTP {
+		gfRunTimepb(g, c)
+	}
+}
+
+func gfRunRuntime(g *gfRunner, c config) {
 	for _, t := range gfCapture(engineRT, c) {
 		switch t[0] {
 		case "SOV":
@@ -947,6 +967,33 @@ func engineGoFun(c config, o *out) {
 			g.skip(unhx(t[1]))
 		}
 	}
+	// the option builders: every flag combination at the depth boundaries
+	res := gfOpaqueResolver{protoregistry.GlobalTypes}
+	for _, fl := range []uint8{0, 1, 2, 3, 4, 0x80, 0xfe, 0xff} {
+		fl := fl
+		in := []string{"(rec (NoUnkeyedLiterals opaque:nul) (Flags " + gfU("uint8", uint64(fl)) + "))"}
+		mo := func(m proto.MarshalOptions) string {
+			return "ok ((rec (NoUnkeyedLiterals opaque:nul) (AllowPartial " + gfBool(m.AllowPartial) + ") (Deterministic " + gfBool(m.Deterministic) + ") (UseCachedSize " + gfBool(m.UseCachedSize) + "))) ()"
+		}
+		g.run(gfRT, "SizeInputToOptions", in, func() string { return mo(runtime.SizeInputToOptions(protoiface.SizeInput{Flags: fl})) })
+		g.run(gfRT, "MarshalInputToOptions", in, func() string { return mo(runtime.MarshalInputToOptions(protoiface.MarshalInput{Flags: fl})) })
+		for _, depth := range []int{math.MinInt64, math.MinInt64 + 1, -1, 0, 1, 2, 3, 100, 10000, math.MaxInt64} {
+			depth := depth
+			in := []string{"(rec (NoUnkeyedLiterals opaque:nul) (Flags " + gfU("uint8", uint64(fl)) + ") (Resolver opaque:res) (Depth " + gfI("int", int64(depth)) + "))"}
+			g.run(gfRT, "UnmarshalInputToOptions", in, func() string {
+				u := runtime.UnmarshalInputToOptions(protoiface.UnmarshalInput{Flags: fl, Depth: depth, Resolver: res})
+				r := "opaque:other"
+				if u.Resolver == res {
+					r = "opaque:res"
+				}
+				return "ok ((rec (RecursionLimit " + gfI("int", int64(u.RecursionLimit)) + ") (NoUnkeyedLiterals opaque:nul) (Merge " + gfBool(u.Merge) + ") (AllowPartial " + gfBool(u.AllowPartial) +
+					") (DiscardUnknown " + gfBool(u.DiscardUnknown) + ") (Resolver " + r + "))) ()"
+			})
+		}
+	}
+}
+
+func gfRunTimepb(g *gfRunner, c config) {
 	for _, t := range gfCapture(engineTime, c) {
 		switch t[0] {
 		case "TADD":
@@ -993,30 +1040,6 @@ func engineGoFun(c config, o *out) {
 			for _, d := range []int64{math.MinInt64, math.MinInt64 + 1, -1000000001, -1000000000, -999999999, -1, 0, 1, 999999999, 1000000000, 1000000001, math.MaxInt64 - 1, math.MaxInt64} {
 				g.addStd(&tspb.Timestamp{Seconds: s, Nanos: n}, d)
 			}
-		}
-	}
-	// the option builders: every flag combination at the depth boundaries
-	res := gfOpaqueResolver{protoregistry.GlobalTypes}
-	for _, fl := range []uint8{0, 1, 2, 3, 4, 0x80, 0xfe, 0xff} {
-		fl := fl
-		in := []string{"(rec (NoUnkeyedLiterals opaque:nul) (Flags " + gfU("uint8", uint64(fl)) + "))"}
-		mo := func(m proto.MarshalOptions) string {
-			return "ok ((rec (NoUnkeyedLiterals opaque:nul) (AllowPartial " + gfBool(m.AllowPartial) + ") (Deterministic " + gfBool(m.Deterministic) + ") (UseCachedSize " + gfBool(m.UseCachedSize) + "))) ()"
-		}
-		g.run(gfRT, "SizeInputToOptions", in, func() string { return mo(runtime.SizeInputToOptions(protoiface.SizeInput{Flags: fl})) })
-		g.run(gfRT, "MarshalInputToOptions", in, func() string { return mo(runtime.MarshalInputToOptions(protoiface.MarshalInput{Flags: fl})) })
-		for _, depth := range []int{math.MinInt64, math.MinInt64 + 1, -1, 0, 1, 2, 3, 100, 10000, math.MaxInt64} {
-			depth := depth
-			in := []string{"(rec (NoUnkeyedLiterals opaque:nul) (Flags " + gfU("uint8", uint64(fl)) + ") (Resolver opaque:res) (Depth " + gfI("int", int64(depth)) + "))"}
-			g.run(gfRT, "UnmarshalInputToOptions", in, func() string {
-				u := runtime.UnmarshalInputToOptions(protoiface.UnmarshalInput{Flags: fl, Depth: depth, Resolver: res})
-				r := "opaque:other"
-				if u.Resolver == res {
-					r = "opaque:res"
-				}
-				return "ok ((rec (RecursionLimit " + gfI("int", int64(u.RecursionLimit)) + ") (NoUnkeyedLiterals opaque:nul) (Merge " + gfBool(u.Merge) + ") (AllowPartial " + gfBool(u.AllowPartial) +
-					") (DiscardUnknown " + gfBool(u.DiscardUnknown) + ") (Resolver " + r + "))) ()"
-			})
 		}
 	}
 }
